@@ -403,6 +403,8 @@ class Interp:
             return _Opaque(f"{o.what}.{attr}")
         if isinstance(o, str) and attr == "__name__":
             return "<str>"
+        if isinstance(o, list) and attr in ("append", "extend", "copy", "insert", "pop"):
+            return _ListMeth(o, attr)
         raise InterpUnsupported(f"{fi.qualname}: attribute `{attr}` on {o!r}")
 
     def call(self, e: ast.Call, env, fi):
@@ -506,6 +508,21 @@ class Interp:
             return self.call_function(fv.func, args, kwargs)
         if isinstance(fv, Stub):
             return fv.called(args, kwargs)
+        if isinstance(fv, _ListMeth):
+            if fv.name == "append" and len(args) == 1:
+                fv.lst.append(args[0])
+                return None
+            if fv.name == "extend" and len(args) == 1:
+                fv.lst.extend(self.iterate(args[0]))
+                return None
+            if fv.name == "copy" and not args:
+                return list(fv.lst)
+            if fv.name == "insert" and len(args) == 2 and isinstance(args[0], int):
+                fv.lst.insert(args[0], args[1])
+                return None
+            if fv.name == "pop":
+                return fv.lst.pop(*[a_ for a_ in args[:1] if isinstance(a_, int)])
+            raise InterpUnsupported(f"{fi.qualname}: list.{fv.name}")
         if isinstance(fv, _Opaque):
             return _Opaque(f"call:{fv.what}")
         raise InterpUnsupported(f"{fi.qualname}: call `{norm(e)[:60]}`")
@@ -563,6 +580,11 @@ class _Break(Exception):
 
 class _Continue(Exception):
     pass
+
+
+class _ListMeth:
+    def __init__(self, lst, name):
+        self.lst, self.name = lst, name
 
 
 class _Lazy:
